@@ -109,8 +109,14 @@ impl<Key, Value> CommandExecutor<Key, Value>
         let delete_hook = move |key| { store_clone.delete(&key); };
 
         thread::spawn(move || {
+            #[cfg(feature = "cached_verif")]
+            let _verif_registration = crate::cache::verif::register("worker");
+            #[cfg(feature = "cached_verif")]
+            crate::cache::verif::point_need("worker.recv", || "cmdq.item".to_string());
             while let Ok(pair) = receiver.recv() {
                 let command = pair.command;
+                #[cfg(feature = "cached_verif")]
+                crate::cache::verif::tap(|| format!("worker.dequeue {}", command.verif_describe()));
                 let status = match command {
                     CommandType::Put(key_description, value) =>
                         Self::put(PutParameter {
@@ -148,14 +154,20 @@ impl<Key, Value> CommandExecutor<Key, Value>
                     CommandType::Shutdown => {
                         info!("Received Shutdown command");
                         pair.acknowledgement.done(CommandStatus::Accepted);
+                        #[cfg(feature = "cached_verif")]
+                        crate::cache::verif::point_need("worker.drain", || "cmdq.item_or_closed".to_string());
                         for command_acknowledgement_pair in receiver.iter() {
                             command_acknowledgement_pair.acknowledgement.done(CommandStatus::ShuttingDown);
+                            #[cfg(feature = "cached_verif")]
+                            crate::cache::verif::point_need("worker.drain", || "cmdq.item_or_closed".to_string());
                         }
                         drop(receiver);
                         break;
                     }
                 };
                 pair.acknowledgement.done(status);
+                #[cfg(feature = "cached_verif")]
+                crate::cache::verif::point_need("worker.recv", || "cmdq.item".to_string());
             }
         });
     }
@@ -166,6 +178,8 @@ impl<Key, Value> CommandExecutor<Key, Value>
     /// 2) It allows `CommandExecutor` to change the status of the command inside `CommandAcknowledgement`. This would then finish the `await` at the client's end.
     pub(crate) fn send(&self, command: CommandType<Key, Value>) -> CommandSendResult {
         let acknowledgement = CommandAcknowledgement::new();
+        #[cfg(feature = "cached_verif")]
+        crate::cache::verif::point_need("cmd.send", || "cmdq.room".to_string());
         let send_result = self.sender.send(CommandAcknowledgementPair {
             command,
             acknowledgement: acknowledgement.clone(),
@@ -234,6 +248,15 @@ impl<Key, Value> CommandExecutor<Key, Value>
             return CommandStatus::Accepted;
         }
         CommandStatus::Rejected(KeyDoesNotExist)
+    }
+}
+
+#[cfg(feature = "cached_verif")]
+impl<Key, Value> CommandExecutor<Key, Value>
+    where Key: Hash + Eq + Send + Sync + Clone + 'static,
+          Value: Send + Sync + 'static {
+    pub(crate) fn verif_queue_len(&self) -> usize {
+        self.sender.len()
     }
 }
 
